@@ -121,3 +121,29 @@ Fixpoint odo_in_table_aux (inside : bool) (x : item) : bool :=
 with kids_odo_in_table (inside : bool) (ks : items) : bool :=
   match ks with INil => false | ICons x xs => odo_in_table_aux inside x || kids_odo_in_table inside xs end.
 Definition odo_in_table (x : item) : bool := odo_in_table_aux false x.
+
+(* a data name that is used twice in the record AND belongs to a REDEFINES union somewhere: $ref placeholders
+   resolve through LocationMaker.anchors, one flat last-wins namespace (finding K-duplicate-name-union) *)
+Fixpoint all_ids (x : item) : list id :=
+  item_id x :: match x with Elem _ _ _ _ => [] | Group _ _ _ ks => all_ids_kids ks end
+with all_ids_kids (ks : items) : list id :=
+  match ks with INil => [] | ICons x xs => all_ids x ++ all_ids_kids xs end.
+
+Fixpoint union_member_ids (x : item) : list id :=
+  match x with
+  | Elem _ _ _ _ => []
+  | Group _ _ _ ks => kids_union_ids (redef_targets ks) ks
+  end
+with kids_union_ids (targets : list id) (ks : items) : list id :=
+  match ks with
+  | INil => []
+  | ICons x xs =>
+      (match union_of targets x with Some _ => [item_id x] | None => [] end)
+      ++ union_member_ids x ++ kids_union_ids targets xs
+  end.
+
+Definition count_id (i : id) (l : list id) : nat := length (filter (N.eqb i) l).
+
+Definition dup_union_name (x : item) : bool :=
+  let ids := all_ids x in
+  existsb (fun i => (2 <=? count_id i ids)%nat) (union_member_ids x).
